@@ -501,6 +501,9 @@ fn cmd_check(engine: &dyn Engine, prop: &str, tier: Tier, known: &Known) -> i32 
     let replay_dir = verif_root().join("replays");
     let _ = std::fs::create_dir_all(&replay_dir);
     let picked: Vec<(&String, &(u64, Vec<u32>, Violation))> = own.iter().take(4).collect();
+    // (engines may take cheaper decisions while candidates are tried - e.g. not re-confirming a hang
+    // twice per candidate; the minimised tape is verified afterwards in a fresh process without it)
+    std::env::set_var("VERIF_MINIMISING", "1");
     let minimised: Vec<(Vec<u32>, usize)> = std::thread::scope(|sc| {
         let hs: Vec<_> = picked
             .iter()
@@ -528,6 +531,7 @@ fn cmd_check(engine: &dyn Engine, prop: &str, tier: Tier, known: &Known) -> i32 
             .collect();
         hs.into_iter().map(|h| h.join().expect("minimiser thread")).collect()
     });
+    std::env::remove_var("VERIF_MINIMISING");
     for ((sig, (idx, tape, v)), (min_tape, execs)) in picked.iter().zip(minimised.into_iter()) {
         let (sig, idx) = (*sig, idx);
         let is_extra = *idx == u64::MAX;
